@@ -2174,7 +2174,9 @@ class SourceCatalog:
         else:
             xcen = self._xcentroid
             ycen = self._ycentroid
-            bkg = map_coordinates(self._background, (xcen, ycen), order=1,
+            # map_coordinates takes the coordinates in (row, column),
+            # i.e., (y, x) order
+            bkg = map_coordinates(self._background, (ycen, xcen), order=1,
                                   mode='nearest')
 
             mask = np.isfinite(xcen) & np.isfinite(ycen)
